@@ -785,8 +785,12 @@ package larking
 
 // gRPC-web-text: the base64 stream must be closed so that the last partial
 // 3-byte group reaches the client (C06: no lost byte).
+//@ func (*webWriter).writeTrailer trusted
+//@   modifies F$webWriter.wroteHeader, F$webWriter.seenHeaders, G$wr.
+//@ func (*webWriter).Flush trusted pure
+// (newWebWriter wraps the response in a base64 encoder, an io.WriteCloser, exactly when typ is grpc-web-text.)
 //@ func (*webWriter).flushWithTrailer serves C06 partial count post
-//@   requires w != nil
+//@   requires w != nil && (w.typ == "application/grpc-web-text" ==> impl(w.resp, "io.Closer"))
 //@   count closes `c.Close(`
 //@   witness verifWitnessWebText
 //@   ensures [text-encoder-closed C06] w.typ == "application/grpc-web-text" && (old(w.wroteHeader) || old(w.wroteResp)) ==> closes == 1
